@@ -48,6 +48,18 @@ struct CEnt {
     alt: bool,
 }
 
+/// The same entry as an in-memory RowNamespaceData (shares parsed as what they are where they were committed).
+fn to_mem(sq: &Sq, raw: &RawRowNamespaceData, e: &CEnt) -> Option<celestia_types::row_namespace_data::RowNamespaceData> {
+    let proof = NamespaceProof::try_from(raw.proof.clone()?).ok()?;
+    let mut shares = vec![];
+    for (i, sh) in raw.shares.iter().enumerate() {
+        let col = e.lo + i;
+        let s = if e.row < sq.k && col < sq.k { celestia_types::Share::from_raw(&sh.data) } else { celestia_types::Share::parity(&sh.data) };
+        shares.push(s.ok()?);
+    }
+    Some(celestia_types::row_namespace_data::RowNamespaceData { proof, shares })
+}
+
 fn build_raw(sq: &Sq, e: &CEnt) -> Option<RawRowNamespaceData> {
     if e.lo >= e.hi || e.hi > sq.w {
         return None;
@@ -174,6 +186,7 @@ pub fn replay(args: &Args) {
                 // expand the abstract list: per abstract entry, b concrete ones; member `off` is the scaled
                 // entry, the others are the honest entries of the block it will be checked against
                 let mut raws: Vec<RawRowNamespaceData> = vec![];
+                let mut mems: Vec<Option<celestia_types::row_namespace_data::RowNamespaceData>> = vec![];
                 let mut ok = true;
                 for (j, e) in es.iter().enumerate() {
                     let prim = CEnt {
@@ -195,7 +208,10 @@ pub fn replay(args: &Args) {
                     for m in 0..b {
                         if m == off {
                             match build_raw(sq, &prim) {
-                                Some(r) => raws.push(r),
+                                Some(r) => {
+                                    mems.push(to_mem(sq, &r, &prim));
+                                    raws.push(r)
+                                }
                                 None => ok = false,
                             }
                         } else if j < rows.len() {
@@ -208,7 +224,9 @@ pub fn replay(args: &Args) {
                                 let p = (0..sq.w).find(|&col| sq.eds.share(row as u16, col as u16).unwrap().namespace() > ns).unwrap_or(sq.w - 1);
                                 CEnt { row, lo: p, hi: p + 1, absence: true, with_shares: false, alt: false }
                             };
-                            raws.push(build_raw(sq, &filler).unwrap());
+                            let r = build_raw(sq, &filler).unwrap();
+                            mems.push(to_mem(sq, &r, &filler));
+                            raws.push(r);
                         }
                     }
                 }
@@ -216,25 +234,39 @@ pub fn replay(args: &Args) {
                     sum.add("skipped_unbuildable", 1);
                     continue;
                 }
-                let got = match catch(|| NamespaceData::from_raw(id, raws).and_then(|d| d.verify(id, dah))) {
+                let wire = match catch(|| NamespaceData::from_raw(id, raws).and_then(|d| d.verify(id, dah))) {
                     Ok(Ok(())) => "accept".to_string(),
                     Ok(Err(_)) => "reject".to_string(),
                     Err(p) => format!("panic: {p}"),
                 };
+                // Second observation point: NamespaceData::verify(id, dah) on in-memory rows that did not pass
+                // from_raw(id) (no namespace filtering at decode time).
+                let direct = if mems.iter().all(|m| m.is_some()) {
+                    let rows: Vec<_> = mems.into_iter().map(|m| m.unwrap()).collect();
+                    match catch(|| NamespaceData::new(rows).verify(id, dah)) {
+                        Ok(Ok(())) => "accept".to_string(),
+                        Ok(Err(_)) => "reject".to_string(),
+                        Err(p) => format!("panic: {p}"),
+                    }
+                } else {
+                    "reject".to_string() // parts that do not even form the object
+                };
+                for (path, got) in [("wire", wire), ("direct", direct)] {
                 *by_width.entry(w).or_default() += 1;
-                let keyn = if demand != "either" { Some(format!("{ci}/{w}/{off}")) } else { None };
+                let keyn = if demand != "either" { Some(format!("{ci}/{w}/{off}/{path}")) } else { None };
                 sum.case("C06", keyn, || json!({"case": c, "width": w, "off": off, "got": got}));
                 let bad = got.starts_with("panic") || (demand != "either" && got != demand);
                 if bad {
                     let gotk = if got.starts_with("panic") { panic_kind(&got) } else { got.clone() };
-                    let class = json!({"kind": "nsdata", "stage": "verify", "cls": cls, "mut": mut0, "demand": demand, "got": gotk,
+                    let class = json!({"kind": "nsdata", "stage": "verify", "path": path, "cls": cls, "mut": mut0, "demand": demand, "got": gotk,
                                        "target": if t == 9 { "parity" } else if t == 0 || t == 6 { "outside" } else { "palette" }});
                     let ck = class.to_string();
                     *classes.entry(ck.clone()).or_default() += 1;
-                    viols.push((ck, json!({"why": format!("width {w} off {off} q {q:?} t {t} {cls}/{}: demanded {demand}, code says {got}", c["mut"]),
+                    viols.push((ck, json!({"why": format!("[{path}] width {w} off {off} q {q:?} t {t} {cls}/{}: demanded {demand}, code says {got}", c["mut"]),
                                            "class": class, "case": c, "width": w, "got": got})));
-                } else if b == 1 && got != predict {
+                } else if path == "wire" && b == 1 && got != predict {
                     sum.drift("C06", json!({"case": c, "width": w, "got": got, "predict": predict}));
+                }
                 }
             }
         }
